@@ -102,3 +102,166 @@ def item_state_convert(self, state):
                 'observation': 'Observation'}, props=['C15', 'C16'])
 def item_observation_convert(self, observation):
     item_contract(self, observation)
+
+
+# ------------------------------------------------------------------------- composition by key
+DBG = 'gym_gridverse.debugging:gv_debug'
+PART = ('object', {'convert': ('fn', 'Token'), 'space': 'Token'})
+SPACE_OBJ = ('object', {'contains': ('fn', 'bool')})
+SPACE_OBJ_S = ('object', {'contains': ('fn', 'bool'), 'can_be_represented': ('const', True)})
+DICT_S = ('new', SR + 'DictStateRepresentation', [SPACE_OBJ_S, ('dict', {'grid': PART, 'agent': PART})])
+DICT_O = ('new', OR + 'DictObservationRepresentation', [SPACE_OBJ, ('dict', {'grid': PART, 'agent': PART})])
+
+
+def dict_convert_contract(self, x, space):
+    reps = self.representations
+    ensures('only-the-debug-membership-check-raises', lambda: implies(not returned(), lambda: (
+        raised(ValueError) and ghost_calls(DBG) >= 1 and ghost_result(DBG, 0)
+        and ghost_calls(space.contains) == 1 and not ghost_result(space.contains, 0))))
+    ensures('total-without-debug', lambda: implies(ghost_calls(DBG) >= 1 and not ghost_result(DBG, 0), lambda: returned()))
+    ensures('one-entry-per-part-each-converting-the-same-value', lambda: implies(returned(), lambda: (
+        len(result()) == 2 and all(
+            ghost_calls(reps[k].convert) == 1 and ghost_arg(reps[k].convert, 0, 0) is x
+            and result()[k] is ghost_result(reps[k].convert, 0) for k in ['grid', 'agent']))))
+
+
+@contract(target=SR + 'DictStateRepresentation.convert', args={'self': DICT_S, 'state': 'State'}, stubs={DBG: 'bool'},
+          props=['C15', 'C16'])
+def dict_state_convert(self, state):
+    dict_convert_contract(self, state, self.state_space)
+
+
+@contract(target=OR + 'DictObservationRepresentation.convert', args={'self': DICT_O, 'observation': 'Observation'},
+          stubs={DBG: 'bool'}, props=['C15', 'C16'])
+def dict_observation_convert(self, observation):
+    dict_convert_contract(self, observation, self.observation_space)
+
+
+@contract(target=SR + 'DictStateRepresentation.space', args={'self': DICT_S}, props=['C15'])
+def dict_state_space(self):
+    ensures('one-space-per-part', lambda: returned() and len(result()) == 2 and all(
+        result()[k] is self.representations[k].space for k in ['grid', 'agent']))
+
+
+@contract(target=OR + 'DictObservationRepresentation.space', args={'self': DICT_O}, props=['C15'])
+def dict_observation_space(self):
+    ensures('one-space-per-part', lambda: returned() and len(result()) == 2 and all(
+        result()[k] is self.representations[k].space for k in ['grid', 'agent']))
+
+
+@contract(target=SR + 'DictStateRepresentation', args={'state_space': ('object', {'can_be_represented': 'bool'})},
+          call=lambda state_space: (state_space, {}), props=['C15'])
+def state_representation_needs_a_representable_space(state_space):
+    ensures('rejects-spaces-with-unrepresentable-objects', lambda: returned() == state_space.can_be_represented
+            and implies(not returned(), lambda: raised(ValueError)))
+
+
+# ------------------------------------------------------------------------- factories by name
+from contracts.spaces import OSPACE, SSPACE
+NAMES = ('oneof', ['default', 'no-overlap', 'compact', 'compact ', ''])
+
+
+def factory_contract(name, space, mod, dict_cls, grid_cls, item_cls, marker_cls, encoders, with_agent):
+    known = name == 'default' or name == 'no-overlap' or name == 'compact'
+    ensures('known-names-or-valueerror', lambda: implies(not known, lambda: raised(ValueError))
+            and implies(not returned(), lambda: raised(ValueError)))
+    def shape():
+        reps = result().representations
+        enc = reps['grid'].grid_object_representation
+        return (type(result()) is dict_cls and len(reps) == (4 if with_agent else 3)
+                and type(reps['grid']) is grid_cls and type(reps['item']) is item_cls
+                and type(reps['agent_id_grid']) is marker_cls
+                # grid cells and the held item are encoded by the same per-object encoder, the one the name asks for
+                and reps['item'].grid_object_representation is enc
+                and type(enc) is (encoders[0] if name == 'default' else encoders[1] if name == 'no-overlap' else encoders[2]))
+    ensures('parts-and-the-named-encoder', lambda: implies(returned(), shape))
+
+
+# the per-object encoders' constructors build numpy index maps (decided by the exhaustive enumeration in
+# pyvc/bounded.py); here they are stubs: the factories are about which parts are assembled
+def ctor_stubs(prefix, kind):
+    return {prefix + c + 'GridObject' + kind + 'Representation.__init__': 'None' for c in ['Default', 'NoOverlap', 'Compact']}
+
+
+@contract(target=SR + 'make_state_representation', args={'name': NAMES, 'state_space': SSPACE}, stubs=ctor_stubs(SR, 'State'),
+          props=['C15', 'C16', 'C20'])
+def make_state_representation(name, state_space):
+    import gym_gridverse.representations.state_representations as m
+    factory_contract(name, state_space, m, m.DictStateRepresentation, m.GridStateRepresentation, m.ItemStateRepresentation,
+                     m.AgentIDGridStateRepresentation,
+                     [m.DefaultGridObjectStateRepresentation, m.NoOverlapGridObjectStateRepresentation,
+                      m.CompactGridObjectStateRepresentation], True)
+    ensures('agent-pose-part', lambda: implies(returned(), lambda: type(result().representations['agent'])
+                                               is m.AgentStateRepresentation))
+
+
+@contract(target=OR + 'make_observation_representation', args={'name': NAMES, 'observation_space': OSPACE},
+          stubs=ctor_stubs(OR, 'Observation'), props=['C15', 'C16', 'C20'])
+def make_observation_representation(name, observation_space):
+    import gym_gridverse.representations.observation_representations as m
+    factory_contract(name, observation_space, m, m.DictObservationRepresentation, m.GridObservationRepresentation,
+                     m.ItemObservationRepresentation, m.AgentIDGridObservationRepresentation,
+                     [m.DefaultGridObjectObservationRepresentation, m.NoOverlapGridObjectObservationRepresentation,
+                      m.CompactGridObjectObservationRepresentation], False)
+
+
+# ------------------------------------------------------------------------- per-object encoders (default, no-overlap)
+# any list of classes / colours (duplicates allowed) stands for every non-empty subset
+RP = 'gym_gridverse.representations.representation:'
+TYPES = ('list', 'Class', 11)
+COLS = ('list', 'Color', 5)
+
+
+@contract(target=RP + 'default_grid_object_representation_convert', args={'grid_object': 'Obj'}, props=['C15', 'C16'])
+def default_convert(grid_object):
+    o0 = old(grid_object)
+    ensures('the-index-triple', lambda: returned() and len(result()) == 3 and result()[0] == grid_object.type_index()
+            and result()[1] == grid_object.state_index and result()[2] == grid_object.color.value)
+    ensures('pure', lambda: same(grid_object, o0))
+
+
+def member(types, colors, o):
+    return any(type(o) is t for t in types) and any(o.color is c for c in colors)
+
+
+@contract(target=RP + 'no_overlap_grid_object_representation_convert',
+          args={'grid_object_types': TYPES, 'grid_object_colors': COLS, 'grid_object': 'Obj'}, props=['C15', 'C16'])
+def no_overlap_convert(grid_object_types, grid_object_colors, grid_object):
+    requires(member(grid_object_types, grid_object_colors, grid_object))
+    T = max(t.type_index() for t in grid_object_types)
+    S = max(t.num_states() for t in grid_object_types)
+    ensures('total', lambda: returned() and len(result()) == 3)
+    ensures('type-channel-is-the-type-index', lambda: result()[0] == grid_object.type_index())
+    ensures('channels-use-disjoint-ranges-fixed-by-the-space', lambda: (
+        0 <= result()[0] and result()[0] <= T and T < result()[1] and result()[1] <= T + S and T + S < result()[2]))
+    ensures('offsets-keep-the-indices', lambda: result()[1] - (T + 1) == grid_object.state_index
+            and result()[2] - (T + S + 2) == grid_object.color.value)
+
+
+MKCAT = 'gym_gridverse.representations.spaces:Space.make_categorical_space'
+
+
+# Space.make_categorical_space (zero lower bounds, numpy dtype checks) is a stub here: what is proved is that the
+# upper-bound vector handed to it dominates the encoding of every member object, and that encodings are non-negative
+@contract(target=RP + 'no_overlap_grid_object_representation_space',
+          args={'grid_object_types': TYPES, 'grid_object_colors': COLS, 'o': 'Obj'}, ghost=['o'], stubs={MKCAT: 'Token'},
+          props=['C15'])
+def no_overlap_space(grid_object_types, grid_object_colors, o):
+    from gym_gridverse.representations.representation import no_overlap_grid_object_representation_convert
+    requires(member(grid_object_types, grid_object_colors, o))
+    enc = no_overlap_grid_object_representation_convert(grid_object_types, grid_object_colors, o)
+    ensures('total', lambda: returned() and ghost_calls(MKCAT) == 1 and result() is ghost_result(MKCAT, 0))
+    ensures('every-member-encoding-lies-inside-the-declared-bounds', lambda: all(
+        0 <= enc[k] and enc[k] <= ghost_arg(MKCAT, 0, 0)[k] for k in [0, 1, 2]))
+
+
+@contract(target=RP + 'default_grid_object_representation_space',
+          args={'grid_object_types': TYPES, 'grid_object_colors': COLS, 'o': 'Obj'}, ghost=['o'], stubs={MKCAT: 'Token'},
+          props=['C15'])
+def default_space(grid_object_types, grid_object_colors, o):
+    from gym_gridverse.representations.representation import default_grid_object_representation_convert
+    requires(member(grid_object_types, grid_object_colors, o))
+    enc = default_grid_object_representation_convert(o)
+    ensures('total', lambda: returned() and ghost_calls(MKCAT) == 1 and result() is ghost_result(MKCAT, 0))
+    ensures('every-member-encoding-lies-inside-the-declared-bounds', lambda: all(
+        0 <= enc[k] and enc[k] <= ghost_arg(MKCAT, 0, 0)[k] for k in [0, 1, 2]))
